@@ -634,11 +634,12 @@ public:
   /// Constraint name. This should normally go via some
   /// printing facilities
   const char* GetConTypeName() const override {
-    static std::string nm {
-      "PowConstraint ^ " + std::to_string(GetConParams()[0])
-    };
-    return nm.c_str();
+    nm_ = "PowConstraint ^ " + std::to_string(GetConParams()[0]);
+    return nm_.c_str();
   }
+private:
+  mutable std::string nm_;    // this constraint's name incl. exponent
+public:
   Range GetLargestAcceptedArgumentRange() const override
   { return rngAccepted_; }
   FuncGraphDomain GetFuncGraphDomain() const override
